@@ -86,7 +86,10 @@ UnaryForms ==
     F("to_tainted_same", "expr", 1, FALSE), F("to_tainted_long", "expr", 1, FALSE), F("to_opaque", "expr", 1, FALSE),
     F("from_opaque", "expr", 1, FALSE), F("static_cast_long", "expr", 1, FALSE), F("reinterpret_charp", "expr", 1, FALSE),
     F("const_cast_same", "expr", 1, FALSE), F("copy_wrapper", "expr", 1, FALSE), F("member_a", "expr", 1, FALSE),
-    F("get_raw_private", "conv", 1, FALSE), F("data_private", "conv", 1, FALSE) }
+    F("get_raw_private", "conv", 1, FALSE), F("data_private", "conv", 1, FALSE),
+    \* comparisons of whole memory ranges that (may) still reside in the sandbox: a hint, nothing else
+    F("memcmp_with_raw", "rangecmp", 1, FALSE), F("memcmp_raw_first", "rangecmp", 1, FALSE),
+    F("memcmp_with_self", "rangecmp", 1, FALSE), F("memcmp_tainted_len", "rangecmp", 1, FALSE) }
 BinOps == {"add", "sub", "mul", "div", "mod", "xor", "and", "or", "shl", "shr", "andand", "oror", "index",
            "addeq", "subeq", "muleq", "shleq", "radd", "rsub", "rmul", "rshl"}
 CmpOps == {"eq", "ne", "lt", "le", "gt", "ge", "req", "rlt"}
@@ -147,6 +150,7 @@ FormAllowed(ev) ==
          \/ IsTaintedPtr(ev.x)                               \* the permitted null test
          \/ ev.rk \in Wrapped                                \* e.g. !tainted_volatile pointer: a hint
     [] ev.cls = "conv" -> ev.verdict = "reject"              \* accepting the conversion is the leak
+    [] ev.cls = "rangecmp" -> ev.verdict = "reject" \/ ev.rk \in {"IH", "BH"}
     [] ev.cls = "expr" ->
          \/ ev.verdict = "reject"
          \/ /\ ev.rk \in Wrapped
